@@ -78,7 +78,7 @@ Outcome(neg, on) ==
 Dual(op) == CASE op = "gt" -> "le" [] op = "le" -> "gt" [] op = "lt" -> "ge" [] op = "ge" -> "lt"
 
 \* the left- and right-hand results of the current clause, straight from the query engine
-Root == WithPaths(Docs[di], <<>>)
+Root == DocPaths(Docs[di])
 RootEnv == <<[k |-> "root", root |-> Root, lets |-> <<>>]>>
 X0 == [F |-> Prog(Clause(FALSE, FALSE)), dev |-> {}]
 Lhs == Query(X0, Queries[qi], 1, Root, RootEnv)
